@@ -109,6 +109,8 @@ FRESH_FUNCS = {
 # immutable scalar, i.e. not an object that could be written to or that holds other objects. (Assumption on the library
 # object models: `.name` of a glyph, layer, anchor, component, axis, source, instance, lookup, ... is its name string.)
 SCALAR_LIB_ATTRS = {"name"}
+# method names that have an effect when called on a source object (see method_call)
+SOURCE_EFFECT_METHODS = MUTATORS | PEN_METHODS | DRAW_METHODS | set(GUARDED_MUTATORS) | ARG_MUTATING_METHODS
 DEFINITE_KINDS = {"cont", "inst", "cls", "func", "bound", "mod", "glob", "attrs", "super", "extcls", "GS", "UNK"}
 # dunder methods that python (or library code) invokes implicitly on an instance; they are analysed for every
 # instance that is created (see Analysis.implicit_dunders)
@@ -1902,6 +1904,8 @@ class Analysis:
                     out.add(self.SRCF)  # descriptor.font (designspace roots)
                 elif name not in SCALAR_LIB_ATTRS:
                     out.add(o)
+                    if name in SOURCE_EFFECT_METHODS:
+                        out.add(self.src_method(o, name))
                 else:
                     out.add(self.UNK)
             elif o.kind == "NONE":
@@ -1977,6 +1981,13 @@ class Analysis:
                     out.add(bm if bm is not None else self.UNK)
         return out
 
+    def src_method(self, o, name):
+        """the bound method `name` (None: a computed name) of a source object, taken as a value: calling it is the
+        method call (the catalogue of method names with an effect decides, as for o.name(...))"""
+        b = self.obj("bound", ("srcmethod", o.key, name), None, f"bound method {name or '<computed>'} of {o.label}")
+        b.self_ = o
+        return b
+
     @staticmethod
     def name_pattern(node):
         """(prefix, suffix) when the string `node` evaluates to certainly starts / ends with these constants
@@ -2001,6 +2012,7 @@ class Analysis:
         for o in objs:
             if o.kind in ("SRC", "GS"):
                 out.add(o)
+                out.add(self.src_method(o, None))
                 continue
             if o.kind == "NONE":
                 continue
@@ -2173,13 +2185,18 @@ class Analysis:
                 if isinstance(n, ast.Call) and isinstance(n.func, ast.Name) and n.func.id in ("setattr", "delattr", "exec", "eval"):
                     return None
                 if self.has_dunders and isinstance(n, (ast.Name, ast.Attribute, ast.Subscript)) and isinstance(getattr(n, "ctx", None), ast.Load) \
-                        and not (n is node or (isinstance(n, ast.Name) and n.id == x)):
+                        and not (isinstance(n, ast.Name) and n.id == x) \
+                        and not (isinstance(pm.get(n), ast.Call) and pm[n].func is n and isinstance(n, ast.Attribute)):
+                    # (`recv.method` as the callee of a call is no value of its own: `recv` is visited separately)
                     # special methods of analysed classes run without a visible call (operators, str(), len(), iteration,
                     # subscripts, truth tests, library code that is handed the object): if a value that occurs in these
                     # statements is -- or holds, two levels deep -- an instance of a class with such methods, analysed code
                     # may run here. (Every value in a statement comes from a variable, an attribute or subscript read, a
                     # call of analysed code -- excluded above -- or a library call, whose result derives from its arguments.)
-                    vs = self._pure_read(n, ctx)
+                    if isinstance(n, ast.Attribute) and isinstance(n.value, ast.Name) and n.value.id == x and n.attr == f:
+                        vs = self.ev(found.value, ctx)  # another read of x.f itself: by this very rule, the new container
+                    else:
+                        vs = self._pure_read(n, ctx)
                     if vs is None:
                         return None
                     vs = set(vs)
@@ -3160,6 +3177,13 @@ class Analysis:
             selfset = {c.self_}
             if fn is not None:
                 return self.call_func(fn, [selfset] + self.argsets(args), {k: v for k, (_, v) in kwargs.items()}, node, ctx, [(None, selfset)] + args, kwargs, star_kw)
+            if c.key[0] == "srcmethod":
+                # f = glyph.appendAnchor; f(...): the method call itself. With a computed name (getattr(glyph, expr)(...))
+                # it may be any method of the source object, also one that modifies it
+                if c.key[2] is None:
+                    self.mutate({c.self_}, node, "call of a method of the source with a computed name")
+                    return {c.self_}
+                return self.method_call(c.self_, c.key[2], node, args, kwargs, star_kw, ctx, set())
             if c.key[-1] == "builtin":
                 nm = getattr(c.py, "__name__", "?")
                 A = self.all_args(args, kwargs, star_kw)
@@ -3185,9 +3209,6 @@ class Analysis:
                     out |= self.apply(b, node, args, kwargs, star_kw, ctx)
             return out
         if c.kind in ("SRC", "GS", "ext", "UNK"):
-            if c.kind in ("SRC", "GS"):
-                # a callable taken from the source (f = glyph.appendAnchor; f(...)): possibly a bound method that modifies it
-                self.mutate({c}, node, "call of a value taken from the source")
             # calling something obtained from a library/source object (e.g. a class stored on it)
             self.invoke_callbacks(self.all_args(args, kwargs, star_kw), node, ctx)
             return self.new_ext(node, self.all_args(args, kwargs, star_kw), through=False)
